@@ -227,9 +227,9 @@ type synth struct {
 }
 
 type synthOpts struct {
-	Structs   int // number of top-level-ish structs in the main file
-	MaxFields int
-	TwoFiles  bool
+	Structs    int // number of top-level-ish structs in the main file
+	MaxFields  int
+	TwoFiles   bool
 	Systematic bool // first structs enumerate type x offset grid
 }
 
